@@ -753,7 +753,7 @@ def _chan_local_close_order_ok():
     if t != want:
         return "false"
     n = _src(find("gateway_base.py", "ChannelFactory._no_longer_opened"))
-    ok = "self._channels.pop(id, None)" in n and "item = self._callbacks.pop(id, None)" in n and "if endmarker is not NO_ENDMARKER_WANTED:\n            try:\n                callback(endmarker)\n            except Exception as exc:" in n
+    ok = "self._channels.pop(id, None)" in n and "item = self._callbacks.pop(id, None)" in n and "if endmarker is not NO_ENDMARKER_WANTED:\n            try:\n                callback(endmarker)\n            except (Exception, SystemExit) as exc:" in n and "% exc" not in n
     return "true" if ok else "false"
 
 
@@ -771,7 +771,7 @@ def _chan_local_receive_shape_ok():
     ok = ok and h == "queue = channel._items if channel is not None else None\nif queue is None:\n    pass\nelse:\n    item = loads_internal(data, channel)\n    queue.put(item)"
     e = _src(tr.orelse)
     # with the Channel object gone the gateway's factory is used (channels inside the item), the captured strconfig applied
-    ok = ok and e.startswith("try:\n    if channel is None:\n        unserializer = Unserializer(BytesIO(data), self.gateway)\n        unserializer.py2str_as_py3str, unserializer.py3str_as_py2str = strconfig\n        data = unserializer.load()\n    else:\n        data = loads_internal(data, channel, strconfig)\n    callback(data)\nexcept Exception as exc:")
+    ok = ok and e.startswith("try:\n    if channel is None:\n        unserializer = Unserializer(BytesIO(data), self.gateway)\n        unserializer.py2str_as_py3str, unserializer.py3str_as_py2str = strconfig\n        data = unserializer.load()\n    else:\n        data = loads_internal(data, channel, strconfig)\n    callback(data)\nexcept (Exception, SystemExit) as exc:")
     return "true" if ok else "false"
 
 
